@@ -274,6 +274,92 @@ CATALOG = [
       conv="b", why="extra check of the same block: the duration is text"),
 ]
 
+# ---- the diagnostic each `src` of the catalogue names, as the CONSTRUCTOR of the models that stands for it (the
+# target column of [table] in coq/Model/DiagMap.v: a parse-stage code D_.. or a kind of Model/AnalysisDiag.v) - a
+# stable name: not a line number (those of `src` are names; the analysis ones are the numbering of 17e6a01 that
+# Model/AnalysisDiag.v uses) and not the wording of the message (rewording is harmless).
+# [inventory_cross_check] holds the severity and stage of every catalogue entry against the PINNED table - the keys
+# of Model/DiagMap.v, proved to be the list in the statement of C07_diag_inventory (C07_diag_table_keys) - never
+# against the tree being judged: when the code changes a severity, the regenerated inventory differs from the pinned
+# list (reported by checks/c07.py) while the monitor keeps expecting the pinned severity and so finds the inputs on
+# which the code now answers otherwise.
+SRC_DIAG = {
+    STEP_RS + ":571": "PCode D_EMPTY_NAME",
+    STEP_RS + ":481": "PCode D_TIMER_NEITHER",
+    QTY_RS + ":303": "PCode D_DIV_ZERO",
+    QTY_RS + ":196": "PCode D_EMPTY_VALUE",
+    STEP_RS + ":387": "PCode D_COOKWARE_UNIT",
+    STEP_RS + ":446": "PCode D_TIMER_NO_UNIT",
+    STEP_RS + ":462": "PCode D_TIMER_NO_QTY",
+    STEP_RS + ":167": "PCode D_DUP_MOD",
+    STEP_RS + ":406": "PCode D_COOKWARE_RECIPE",
+    STEP_RS + ":498": "PCode D_MODS_NOT_ALLOWED",
+    STEP_RS + ":515": "PCode D_INTER_NOT_ALLOWED",
+    STEP_RS + ":306": "PCode D_EMPTY_ALIAS",
+    STEP_RS + ":297": "PCode D_MULTI_ALIAS",
+    STEP_RS + ":537": "PCode D_ALIAS_NOT_ALLOWED",
+    STEP_RS + ":225": "PCode D_INTER_EMPTY",
+    STEP_RS + ":235": "PCode D_INTER_ORDER",
+    STEP_RS + ":246": "PCode D_INTER_SIGN",
+    STEP_RS + ":256": "PCode D_INTER_INVALID",
+    STEP_RS + ":264": "PCode D_INTER_INT",
+    "src/parser/metadata.rs:27": "PCode D_EMPTY_META_KEY",
+    "src/parser/metadata.rs:35": "PCode D_EMPTY_META_VALUE",
+    EC_RS + ":1123": "AKind KConflictModifiers",
+    EC_RS + ":1205": "AKind KConflictModifiers",
+    EC_RS + ":1212": "AKind KRefNotFound",
+    EC_RS + ":615": "AKind KInterModifiers",
+    EC_RS + ":727": "AKind KConflictQuantity",
+    EC_RS + ":943": "AKind KConflictQuantity",
+    EC_RS + ":688": "AKind KIncompatibleUnits",
+    EC_RS + ":702": "AKind KNoteOnReference",
+    EC_RS + ":927": "AKind KNoteOnReference",
+    EC_RS + ":795": "AKind KInterZero",
+    EC_RS + ":802": "AKind KInterZero",
+    EC_RS + ":830": "AKind KInterBounds",
+    EC_RS + ":852": "AKind KInterBounds",
+    EC_RS + ":867": "AKind KInterBounds",
+    EC_RS + ":884": "AKind KInterBounds",
+    EC_RS + ":363": "AKind KInvalidConfigValue",
+    EC_RS + ":370": "AKind KInvalidConfigValue",
+    EC_RS + ":243": "AKind KYamlError",
+    EC_RS + ":1001": "AKind KTimerUnitNotTime",
+    EC_RS + ":1011": "AKind KTimerUnitUnknown",
+    EC_RS + ":991": "AKind KTimerValueText",
+}
+# the out-of-range intermediate references that checks/c07.py builds itself (inter_cases: severity "e")
+INTER_CASES_SRC = EC_RS + ":830"
+SEV_NAME = {"e": "Error", "w": "Warning"}
+
+
+def inventory_cross_check(table):
+    """table: [(key, constructor text)] of Model/DiagMap.v (gen_diags.pinned_table()), key = (stage, file, fn, how,
+    severity, pushes, ordinal).  -> (number of catalogue entries held against it, list of disagreements)"""
+    by_ctor = {}
+    for key, ctor in table or []:
+        by_ctor.setdefault(ctor, []).append(key)
+    bad, n = [], 0
+    for en in CATALOG + [Entry("inter_cases", "out-of-range intermediate reference", "", "e", "Analysis", X_INTER,
+                               INTER_CASES_SRC)]:
+        ctor = SRC_DIAG.get(en.src)
+        if ctor is None:
+            bad.append("catalogue entry %s: its source %s names no constructor (SRC_DIAG)" % (en.id, en.src))
+            continue
+        keys = by_ctor.get(ctor)
+        if not keys:
+            bad.append("catalogue entry %s (%s): no row of the table of Model/DiagMap.v maps to %s" % (en.id, en.src, ctor))
+            continue
+        n += 1
+        for stage, file, fn, how, sev, pushes, ordn in keys:
+            if stage != en.stage:
+                bad.append("catalogue entry %s expects stage %s, the pinned table says %s for %s (fn %s #%d of %s.rs)"
+                           % (en.id, en.stage, stage, ctor, fn, ordn, file))
+            if sev != SEV_NAME[en.sev]:
+                bad.append("catalogue entry %s expects severity %s, the pinned table says %s for %s (fn %s #%d of %s.rs)"
+                           % (en.id, SEV_NAME[en.sev], sev, ctor, fn, ordn, file))
+    return n, bad
+
+
 CLASSES = ["empty name", "zero denominator", "empty value", "unit on cookware", "timer without unit or duration",
            "duplicate or forbidden modifier", "bad alias", "dangling or conflicting reference", "note on a reference",
            "out-of-range intermediate reference", "bad mode value", "malformed front matter", "non-time timer unit",
